@@ -61,7 +61,9 @@ class PoolModel:
         return self
 
     def __exit__(self, *a):
-        self.eng.event("pool-exit")
+        if not getattr(self, "_closed", False):
+            self._closed = True
+            self.eng.event("pool-exit")
         return False
 
     def starmap(self, f, xs):
@@ -76,7 +78,11 @@ class PoolModel:
         return [self.eng.call(f, [x], {}) for x in self.eng.iterate(xs)]
 
     def close(self):
-        pass
+        if not getattr(self, "_closed", False):
+            self._closed = True
+            self.eng.event("pool-exit")
+
+    terminate = close
 
     def join(self):
         pass
